@@ -33,6 +33,7 @@ def disagree(ctx: Ctx, case: Case, what: str, detail: dict, corr: str, prop: str
 
 def _effort(ctx: Ctx, n: int) -> int:
     """samples per class: four times as many in the pass that searches for a failing input after the tie broke"""
+    n = n * getattr(ctx, "case_boost", 1)   # five-fold on a specification whose emitted text differs from the model's IR
     return 4 * n if getattr(ctx, "oracle_only", False) else n
 
 
@@ -877,6 +878,12 @@ def run_c19(ctx: Ctx):
                             fails(ctx, case, f"{cname}.{pub} is a list, not a tuple", {"class": cname, "object": ro, "attribute": pub})
                             return
                     second = genlib.do_ser(cls, obj, False)
+                    # ... and once more after a serialisation of the same instance under the other entry mode (everything
+                    # sanitised): state shared between writers must not leak from one serialisation into the next
+                    genlib.do_ser(cls, obj, True)
+                    third = genlib.do_ser(cls, obj, False)
+                    if second == first and third != first:
+                        second = third
                     n += 1
                     ctx.sig((hash(cname) % 7, classify(first), sum(isinstance(v, list) for v in kw2.values())))
                     if first != second or genlib.render(obj) != ro:
